@@ -13,6 +13,11 @@ CONSTANTS
   MaxReverts = 0
   MemoFamilies = {}
   MemoPurged = TRUE
+  FieldTable <- MCFieldTable
+  VaryShapes = FALSE
+  MaxClasses = 0
+  CodecSlip = "none"
+  SlipCodecs = {}
 INIT Init
 NEXT NextR
 VIEW view
